@@ -178,7 +178,7 @@ func c11PartialDiff(f *fit.File, want map[uint16][]string) string {
 
 func runC11(w *vx.W) {
 	crcStreams()
-	streams := []namedStream{sMin12, sMin14, sMin14z, sAct3, sAct3BE, sSet, sZero, sDev, sMonState, sChain2, sChain2b, sChain3, sChainZero, sChainState, sCRChi0, sCRClo0, sCRC00, sChainCRC0, sLongFields, sLongFieldsL}
+	streams := []namedStream{sMin12, sMin14, sMin14z, sAct3, sAct3BE, sSet, sZero, sDev, sMonState, sChain2, sChain2b, sChain3, sChainZero, sChainState, sCRChi0, sCRClo0, sCRC00, sChainCRC0, sLongFields, sLongFieldsL, sUnkTail}
 	if !w.Quick() {
 		streams = append(streams, sBig, sChainBig, s8192)
 	}
@@ -203,6 +203,11 @@ func runC11(w *vx.W) {
 		}
 		first := s.Members[0]
 		hs := int(first[0])
+		// where the first data record (file_id) ends: what DecodeHeaderAndFileID needs
+		fileIdEnd := hs + 11
+		if pp, _, perr := fitmodel.ParseOne(first); perr == nil && len(pp.Recs) > 0 {
+			fileIdEnd = pp.Recs[0].Offset + 1 + len(pp.Recs[0].Payload)
+		}
 		for off := 0; off <= len(s.B); off++ {
 			if len(s.B) > 2000 && off > 300 && off < len(s.B)-300 && off%97 != 0 && off%4096 > 2 && off%4096 < 4094 &&
 				!((s.Name == sLongFields.Name || s.Name == sLongFieldsL.Name) && off > 3800 && off < 4600 && off%3 == 0) {
@@ -235,7 +240,7 @@ func runC11(w *vx.W) {
 						case "DecodeHeader", "CheckIntegrityHeaderOnly":
 							need = hs
 						case "DecodeHeaderAndFileID":
-							need = hs + 11
+							need = fileIdEnd
 						case "DecodeChained":
 							need = len(s.B)
 						}
